@@ -1,3 +1,4 @@
+#include <errno.h>
 #include <fcntl.h>
 #include <poll.h>
 #include <signal.h>
@@ -91,7 +92,12 @@ char *cmd_pipe(char *cmd, char *ibuf, int oproc)
 	fds[1].events = POLLOUT;
 	fds[2].fd = isatty(0) && ibuf != NULL ? 0 : -1;
 	fds[2].events = POLLIN;
-	while ((fds[0].fd >= 0 || fds[1].fd >= 0) && poll(fds, 3, 200) >= 0) {
+	while (fds[0].fd >= 0 || fds[1].fd >= 0) {
+		if (poll(fds, 3, 200) < 0) {
+			if (errno == EINTR)	/* a signal, e.g. the window was resized */
+				continue;
+			break;
+		}
 		if (fds[0].revents & POLLIN) {
 			int ret = read(fds[0].fd, buf, sizeof(buf));
 			if (ret > 0 && oproc == 2)
